@@ -293,3 +293,118 @@ def churn_meshes(seq, cells, fn, count=6):
         if q is not None:
             _quiet(lambda: fn(q))
         del q
+
+
+# ----------------------------------------------------------------------------- extension (hardener hg2)
+# `mkperm_u` / `mkmesh_u` (u = with the calling module's own `use`): the routes of mkperm / mkmesh and more (copies via slicing and
+# concatenation, standardisation of the used object, shifts and back, inverse of inverse, sum with the empty
+# permutation; add_point + sub_mesh_pattern, an item of MeshPatt.of_length, shade from a used AND ranked base,
+# unrank from the rank of a used object).  Same contract: the returned object equals the requested value.
+ROUTE_STATS = {}     # (kind, route, produced the requested value) -> count; diagnostic only
+
+
+def mkperm_u(seq, salt=0, use=None):
+    """`use`: the calling module's own way of using a permutation (its operations under test, results discarded);
+    applied, after use_perm, to every object the routes pass through - the origin a derived object comes from has
+    then been used with the very operations the line is about"""
+    from permuta import Perm
+    seq = tuple(seq)
+    p = Perm(seq)
+    n = len(seq)
+    k = _pick(("p2", seq, salt), 18)
+    c = _pick(("cut", seq, salt), n + 1)
+
+    def u(x):
+        use_perm(x)
+        if use is not None:
+            _quiet(lambda: use(x))
+        return x
+
+    if k == 0:
+        return p
+    if k == 1:
+        return u(p)
+    routes = {
+        2: lambda: u(p.complement()).complement(),
+        3: lambda: u(p.reverse()).reverse(),
+        4: lambda: u(p.inverse()).inverse(),
+        5: lambda: u(p.rotate(1)).rotate(-1),
+        6: lambda: u(p.insert(0, 0)).remove(0),
+        7: lambda: Perm.unrank(u(p).rank()) if n < 15 else u(p),
+        8: lambda: Perm.from_string(str(u(p))) if n <= 10 else Perm(tuple(u(p))),
+        9: lambda: u(u(p).remove(n - 1)).insert(n - 1, seq[n - 1]) if n else u(p),
+        10: lambda: Perm(tuple(u(p)[:c]) + tuple(p[c:])),
+        11: lambda: Perm(list(u(p))[::-1][::-1]),
+        12: lambda: Perm.to_standard(u(p)),
+        13: lambda: u(u(p).shift_right(c)).shift_left(c),
+        14: lambda: u(u(p).inverse().inverse()),
+        15: lambda: u(p).direct_sum(Perm(())),
+        16: lambda: Perm(()).skew_sum(u(p)),
+        17: lambda: u(u(p).reverse().complement()).complement().reverse(),
+    }
+    q = _quiet(routes[k])
+    good = q is not None and tuple(q) == seq and type(q) is Perm
+    ROUTE_STATS[("p", k, good)] = ROUTE_STATS.get(("p", k, good), 0) + 1
+    return q if good else p
+
+
+def mkmesh_u(seq, cells, salt=0, use=None):
+    """`use`: as for mkperm_u (the calling module's own use of a mesh pattern)"""
+    from permuta import MeshPatt, Perm
+    seq = tuple(seq)
+    cells = frozenset(tuple(c) for c in cells)
+    n = len(seq)
+    k = _pick(("m2", seq, tuple(sorted(cells)), salt), 15)
+    m = MeshPatt(Perm(seq), cells)
+
+    def u(x):
+        if n <= 40:
+            _quiet(x.rank)
+        use_mesh(x)
+        if use is not None:
+            _quiet(lambda: use(x))
+        return x
+
+    def by_shade():
+        if not cells:
+            return u(m).shade()
+        cs = sorted(cells)
+        j = 1 + _pick(("c2", seq, salt), len(cs))
+        return u(u(MeshPatt(Perm(seq), cs[j:])).shade(*cs[:j]))
+
+    def by_point():
+        free = [(x, y) for x in range(n + 1) for y in range(n + 1) if (x, y) not in cells]
+        if not free or n > 12:
+            return None
+        x, y = free[_pick(("f", seq, salt), len(free))]
+        big = u(u(m).add_point((x, y)))
+        return big.sub_mesh_pattern([i for i in range(n + 1) if i != x])
+
+    def by_listing():
+        if n > 2:
+            return None
+        return next((x for x in MeshPatt.of_length(n, use_perm(Perm(seq))) if x.shading == cells), None)
+
+    if k == 0:
+        return m
+    if k == 1:
+        return u(m)
+    routes = {
+        2: lambda: u(m.complement()).complement(),
+        3: lambda: u(m.reverse()).reverse(),
+        4: lambda: u(m.inverse()).inverse(),
+        5: lambda: u(m.rotate(1)).rotate(3),
+        6: by_shade,
+        7: lambda: MeshPatt.unrank(use_perm(Perm(seq)), u(m).rank()) if n <= 40 else None,
+        8: lambda: u(m).sub_mesh_pattern(range(n)),
+        9: by_shade,
+        10: by_point,
+        11: by_listing,
+        12: by_shade,
+        13: lambda: MeshPatt.unrank(Perm(seq), u(u(m).flip_horizontal()).flip_horizontal().rank()) if n <= 40 else None,
+        14: lambda: u(u(m).flip_horizontal()).flip_horizontal(),
+    }
+    q = _quiet(routes[k])
+    ok = q is not None and type(q) is MeshPatt and tuple(q.pattern) == seq and frozenset(q.shading) == cells
+    ROUTE_STATS[("m", k, ok)] = ROUTE_STATS.get(("m", k, ok), 0) + 1
+    return q if ok else m
